@@ -526,20 +526,18 @@ def run(rep, ctx):
         r04_4(rep, M, "R04.4")
     rep.rule("R04.5", "complete_cell / get_minimized_cell keep atoms and displacements (shared with C20)")
     with rep.guard("R04.5"):
-        c20.r20_6(rep, M, "R04.5")
-        c20.r20_4(rep, M, E, "R04.5")
-        c20.r20_7(rep, M, "R04.5")
-        c20.r20_units(rep, M, "R04.5")
+        from ..report import Filtered
+        cell_only = Filtered(rep, lambda construct: "complete_cell" in construct or "minimized" in construct or "get_minimized_cell" in construct)
+        c20.r20_6(cell_only, M, "R04.5")
+        c20.r20_4(cell_only, M, E, "R04.5")
+        c20.r20_7(cell_only, M, "R04.5")
+        c20.r20_units(cell_only, M, "R04.5")
     rep.rule("R04.6", "the id is the hash of normal-form data (number, letters, species, multiplicities, 2D flag) produced by the order-stable ranking (shared with C06/C07/C11)")
     with rep.guard("R04.6"):
         _sh.normal_form(rep, M, "R04.6")
         r04_flag(rep, M, "R04.6")
     rep.rule("R04.7", "every tabulated letter permutation is the bijection its normalizer induces (the same material described from another origin gets the same letters)")
     TO.norm_perm(rep, ctx.tables, "R04.7")
-    rep.rule("R04.8", "every tabulated normalizer is an automorphism of its group and an isometry of the lattice (the normalised cell is the same crystal in the same space group; shared with C05/C14)")
-    from . import shared as _shn
-    _shn.normalizer_tables(rep, ctx.tables, "R04.8", perm=False)
-    rep.floor("R04.8", 2400)
     rep.rule("R04.9", "the structure is searched on a working copy whose atoms are inside the cell: atoms outside along a non-periodic axis always trigger "
              "enlargement and centring, periodic axes are wrapped (a monolayer stored outside its cell still gets a region and hence a prototype cell; shared with C01)")
     with rep.guard("R04.9"):
@@ -557,12 +555,12 @@ def run(rep, ctx):
     rep.rule("R04.13", "no function keeps results in module-level state or functools caches (answers do not depend on what the process analysed before)")
     with rep.guard("R04.13"):
         from .. import symrules as _SRms
-        _SRms.module_state(rep, ctx.model, "R04.13")
+        _SRms.module_state(rep, ctx.model, "R04.13", tuple(sorted(set(_SRms.GEOMETRY_SIDE) | set(_SRms.SYMMETRY_SIDE))))
     rep.floor("R04.1", 6)
     rep.floor("R04.2", 6)
     rep.floor("R04.3", 8)
     rep.floor("R04.4", 5)
-    rep.floor("R04.5", 10)
+    rep.floor("R04.5", 6)
     rep.floor("R04.6", 10)
     rep.floor("R04.7", 6000)
 
